@@ -75,6 +75,7 @@ def extract_consts():
         c["bufio_size"] = 4096    # bufio.NewReader: defaultBufSize of the Go standard library
     c["dns_max"] = int(one(r"\n\tTCPDNSMaxMessageSize\s*=\s*(\d+)\n", tcp, "TCPDNSMaxMessageSize").group(1))
     c.update(extract_splice())
+    c.update(extract_ready())
     c["direct"] = int(one(r"\n\tOutboundDirect\s+OutboundIndex\s*=\s*(0x[0-9a-fA-F]+|\d+)\n", gen, "OutboundDirect").group(1), 0)
     c["block"] = int(one(r"\n\tOutboundBlock\s+OutboundIndex\s*=\s*(0x[0-9a-fA-F]+|\d+)\n", gen, "OutboundBlock").group(1), 0)
     return c
@@ -116,6 +117,87 @@ def extract_splice():
     return {"sp_fill": f_fill, "sp_drain": f_drain, "sp_err": f_err, "sp_short": f_short, "sp_limit": int(lim.group(1))}
 
 
+def _blocks(txt):
+    """split Go statements of a block: returns a list of ("if", cond, inner_text) / ("stmt", text)"""
+    out, i, n = [], 0, len(txt)
+    while i < n:
+        if txt[i].isspace():
+            i += 1
+            continue
+        if txt.startswith("if ", i):
+            j = txt.index("{", i)
+            cond = txt[i + 3:j].strip()
+            depth, k = 1, j + 1
+            while depth:
+                if txt[k] == "{":
+                    depth += 1
+                elif txt[k] == "}":
+                    depth -= 1
+                k += 1
+            out.append(("if", cond, txt[j + 1:k - 1]))
+            i = k
+            if txt[i:i + 6].lstrip().startswith("else"):
+                raise AnchorMoved("else branch in readStreamOnceWithReadDeadline")
+        else:
+            j = txt.find("\n", i)
+            j = n if j < 0 else j
+            out.append(("stmt", txt[i:j].strip()))
+            i = j
+    return out
+
+
+def extract_ready():
+    """Sniffer.readStreamOnceWithReadDeadline: on each way out after the read (no error / the sniff deadline
+    expired / another error) how many times close(s.dataReady) runs and whether s.dataError is set - by a small
+    interpreter over the statements the function is made of; anything it does not know is an anchor failure."""
+    src = _read("component/sniffing/sniffer.go")
+    m = re.search(r"\nfunc \(s \*Sniffer\) readStreamOnceWithReadDeadline\(\) error \{\n(.*?)\n\}\n", src, re.S)
+    if not m:
+        raise AnchorMoved("readStreamOnceWithReadDeadline signature")
+    body = re.sub(r"//[^\n]*", "", m.group(1))
+    k = body.find("_, err := s.buf.ReadFromOnce(s.conn)")
+    if k < 0 or "dataReady" in body[:k]:
+        raise AnchorMoved("readStreamOnceWithReadDeadline: the read")
+    tail = body[k + len("_, err := s.buf.ReadFromOnce(s.conn)"):]
+    res = {}
+    for env in ("ok", "timeout", "err"):
+        closes, derr, returned = [0], [False], [False]
+
+        def run(txt):
+            for st in _blocks(txt):
+                if returned[0]:
+                    return
+                if st[0] == "if":
+                    cond = st[1]
+                    if cond == "err == nil":
+                        take = env == "ok"
+                    elif cond == "err != nil":
+                        take = env != "ok"
+                    elif cond == "errors.As(err, &netErr) && netErr.Timeout()":
+                        take = env == "timeout"
+                    else:
+                        raise AnchorMoved("readStreamOnceWithReadDeadline: condition " + cond)
+                    if take:
+                        run(st[2])
+                else:
+                    t = st[1]
+                    if t == "close(s.dataReady)":
+                        closes[0] += 1
+                    elif t == "s.dataError = err":
+                        derr[0] = True
+                    elif t.startswith("return"):
+                        returned[0] = True
+                    elif t in ("var netErr net.Error", ""):
+                        pass
+                    else:
+                        raise AnchorMoved("readStreamOnceWithReadDeadline: statement " + t)
+        run(tail)
+        if not returned[0]:
+            raise AnchorMoved("readStreamOnceWithReadDeadline: a path without return")
+        res[env] = (closes[0], derr[0])
+    return {"rd_ok": res["ok"], "rd_timeout": res["timeout"], "rd_err": res["err"]}
+
+
 def write_gen(c):
     txt = ("(* GENERATED by tools/c05.py from /repo - do not edit. *)\n"
            "From Coq Require Import List NArith.\nImport ListNotations.\nOpen Scope N_scope.\n"
@@ -131,11 +213,14 @@ def write_gen(c):
            "Definition c05_splice_upd_fill : bool := %s.\nDefinition c05_splice_upd_drain : bool := %s.\n"
            "Definition c05_splice_set_on_err : bool := %s.\nDefinition c05_splice_set_on_short : bool := %s.\n"
            "Definition c05_splice_pool_limit : N := %d.\n"
+           "Definition c05_ready_closes_ok : N := %d.\nDefinition c05_ready_closes_timeout : N := %d.\nDefinition c05_ready_closes_err : N := %d.\n"
+           "Definition c05_derr_set_ok : bool := %s.\nDefinition c05_derr_set_timeout : bool := %s.\nDefinition c05_derr_set_err : bool := %s.\n"
            % (c["dns_first"], c["half_close"], c["prefetch"], c["relay_buf"], c["bufio_size"],
               "; ".join(str(x) for x in c["excluded"]),
               "; ".join("[" + ";".join(str(ord(ch)) for ch in p) + "]" for p in c["http"]),
               c["direct"], c["block"],
-              vlib.cbool(c["sp_fill"]), vlib.cbool(c["sp_drain"]), vlib.cbool(c["sp_err"]), vlib.cbool(c["sp_short"]), c["sp_limit"]))
+              vlib.cbool(c["sp_fill"]), vlib.cbool(c["sp_drain"]), vlib.cbool(c["sp_err"]), vlib.cbool(c["sp_short"]), c["sp_limit"],
+              c["rd_ok"][0], c["rd_timeout"][0], c["rd_err"][0], vlib.cbool(c["rd_ok"][1]), vlib.cbool(c["rd_timeout"][1]), vlib.cbool(c["rd_err"][1])))
     vlib.write_if_changed(os.path.join(vlib.COQ, "gen", "C05_Extracted.v"), txt)
 
 
@@ -1109,7 +1194,7 @@ def main(argv):
         for mname, idxs in sorted(classes.items()):
             i = idxs[0]
             known = any(e["property"] == PID and e["match"] == mname for e in out.kf["open"])
-            sh = shrink(sc, binary, cases[i], mname) if (mname not in ("harness-panic-or-hang", "implementation-panic", "implementation-stuck", "relay-blocked-after-sniff-timeout") and not known) else None
+            sh = shrink(sc, binary, cases[i], mname) if (not mname.endswith(("harness-panic-or-hang", "implementation-panic", "implementation-stuck", "relay-blocked-after-sniff-timeout")) and not known) else None
             small, codes_s, r = sh if sh else (cases[i], all_err[i], all_res.get(i, {}))
             errs = {0: codes_s}
             r = strip_obs(r)
